@@ -9,6 +9,24 @@ NOTE = ("Trusted: go/ssa lowering, engine instruction semantics + listed stubs (
 CLAIMS = {
  "C01": ("§5 C01", "All protowire primitives encoded whole from go/ssa; every uint64/int64/uint32, every valid field number and 3-bit type, payloads<=4 bytes, prefix<=2 bytes: round trip, exact consumption, Size agreement, shortest varint, ZigZag/tag/bool bijection, group body recovery. Bounded model checking at full machine width, not a proof about arbitrary payload lengths."),
  "C02": ("§5 C02", "ConsumeField/ConsumeTag/ConsumeFieldValue/ConsumeGroup/consumeFieldValueD compared with a reference recursive-descent scanner written from the wire grammar (error classes included) on every byte string up to 5 bytes (7 thorough), plus structured long inputs (8..11-byte varints, 5..10-byte tags, 12-byte fields per wire type, group with a >=9-byte varint) that reach the 10th-varint-byte arms; small symbolic recursion limits; ParseError mapping for every int."),
+ "C03": ("§0a, §5 C03", "Message-level, fast path: for every message reachable by decoding <=3..4 (5 thorough) wire bytes (and one complete field of every wire type incl. 10-byte varints) into the corpus mirror types (proto2/proto3 scalars, packed/unpacked repeated, messages, groups, recursion, required, opaque+lazy) whose coder tables are built by the real makeCoderMethods/makeOpaqueCoderMethods: Unmarshal(Marshal(m)) has the same deterministic encoding as m, default == deterministic marshal, lazy and eager decoding agree. Reflection-codec length-prefix fix-up (finishSpeculativeLength) for every payload length across the 1/2/3-byte varint boundaries. Maps, oneofs, extensions, dynamicpb, real generated types are outside."),
+ "C04": ("§0a, §5 C04", "sizePointer == len(marshalAppendPointer) and prefix preservation for every message reachable from the bounded inputs of C03 on the corpus types (default, deterministic, cached-size, lazily decoded); appendSpeculativeLength/finishSpeculativeLength produce prefix++varint(len)++payload for lengths 0..130 and 16380..16390. Maps/oneofs/extensions outside."),
+ "C05": ("§5 C05", "Kernel only: order.LegacyFieldOrder/NumberFieldOrder/IndexNameFieldOrder are strict total orders on 3 fields with symbolic numbers/indexes/names/oneof+extension membership (unique sorted order); GenericKeyOrder is a strict total order matching the documented order on 3 keys of one scalar type; on the corpus default and deterministic marshal coincide (C03 harness). appendMapDeterministic, cross-process determinism and 'equal bytes => Equal' are outside."),
+ "C06": ("§0a, §5 C06", "unmarshalPointer vs validate vs the generic protowire scan vs checkInitializedPointer on every byte string <=3..4 (5..6 thorough) for 7 corpus types, plus one-field structured inputs (symbolic tag byte, exact-shape payloads up to 10-byte varints), small symbolic recursion limits 0..3 on VNests: never panics, consumes exactly its input, accepts only well-formed wire data, rejects all malformed data, Valid=>decodes, Invalid=>fails, never reports a partial message initialized."),
+ "C07": ("§0a, §5 C07", "mergePointer vs decoding of concatenations on corpus types, |x|+|y|<=3 (5 thorough): Merge(a,b)==Unmarshal(Marshal(a)++Marshal(b)), Unmarshal(x++y)==Merge(Unmarshal x,Unmarshal y), decoding y into a populated message == Merge; source unchanged. Known finding (thorough bound only): explicit zero of an implicit-presence scalar in y. Reflection merge, maps, oneofs, extensions outside."),
+ "C09": ("§0a, §5 C09", "On corpus types and VEmpty: unknown fields survive decode/marshal (round trip via canon), decoding via a schema that knows no field and re-encoding gives the same message as decoding directly, DiscardUnknown leaves no unknown bytes anywhere in the tree (walker over the mirror types); inputs <=3..4 (5) bytes and one-field structured inputs."),
+ "C10": ("§0a, §5 C10", "Three accountings of required fields (decoder requiredMask/initialized flag, validate's mask, checkInitializedPointer) on VReq, VReqOuter (required below message/repeated/group) and the opaque VReqO: flag=>complete, validator flag=>complete, and complete=>flag on the re-marshalled form; open and opaque flavours agree. JSON/text paths, extensions, map values, oneofs, >64 required fields outside."),
+ "C11": ("§0a, §5 C11", "Opaque presence bitmap: one step of SetPresent/SetPresentUnatomic/ClearPresent/Present/AnyPresent/PresentInCache from an arbitrary bitmap state (covers every history); implicit-presence zero never encoded and explicit proto3 optional encoded once set (VScalars3, inputs<=4); open vs opaque presence-carrying flavours agree. Reflection Has, JSON/text presence outside."),
+ "C13": ("§0a, §5 C13", "Validated (proto3) vs non-validated string/bytes fields on VScalars3/VRepeats/VScalars2: decoder and validator agree on acceptance for every input <=3 bytes and for every one-field payload <=3 bytes (all rune widths need 4: thorough), round trip unchanged. Map keys/values, JSON/text message level outside."),
+ "C14": ("§0a, §5 C14", "After unmarshalPointer returns, overwriting every input byte with arbitrary values leaves the deterministic encoding unchanged (5 corpus types incl. unknown fields; lazily decoded VNode and VHolder{VNode} compared with a twin decoded from a private copy, incl. double lazy decode); after mergePointer, overwriting the source's byte slices/scalars leaves the destination unchanged. Clone via reflection, maps outside."),
+ "C16": ("§0a, §5 C16", "Size caches of the whole tree set to arbitrary int32 values (= every history of earlier Size/Marshal calls and mutations), then the exact sequence proto.Marshal performs (sizePointer, marshalAppendPointer with UseCachedSize) yields the encoding of the current content; VNests/VReqOuter/VScalars2 from inputs <=4 (5) bytes."),
+ "C17": ("§0a, §5 C17", "Opaque VNode with a lazy self-recursive child: lazy vs NoLazyDecoding on every input <=3 (5) bytes and on structured inputs (child bodies, repeated/out-of-order/non-contiguous children): same verdict, initialized flag, presence bits, Size==len, pass-through bytes decode to the same message, same deterministic bytes, same CheckInitialized, forcing every lazy field never panics; protolazy.lookupField vs reference on sorted indexes <=4 entries; buildIndex/SizeField/AppendField segments on scan-accepted inputs <=5 (6)."),
+ "C18": ("§5 C18", "Consistency half only: one inductive step of every write-once publication primitive (AtomicSetPointerIfNil, AtomicInitializePointer, AtomicLoadPointer, atomicV1MessageInfo.SetIfNil, atomicNilMessage.Init) from an arbitrary cell state: a published value is never overwritten, every caller obtains the final value. Data-race freedom (Go memory model) is outside this technique."),
+ "C22": ("§5 C22", "Integers only: JSON number literals of case-split shape (sign, <=3 (5) integer digits, <=2 (3) fraction digits, exponent -21..21 (-25..25), all digits symbolic) and 18..20-digit plain integers through parseNumberParts -> normalizeToIntString -> strconv vs exact reference arithmetic for int32/int64/uint32/uint64 (cvc5 integer back end): accepted iff integral and in range, value exact. Floats, enums, base64 outside."),
+ "C26": ("§5 C26", "Kernel: internal/set.Ints one inductive step (Set/Clear/Has/Len from arbitrary state, 63/64 boundary) for duplicate detection; JSON token decoder total on every document <=4 (5) bytes; text parseString total. RecursionLimit and seenNums call sites in protojson/prototext.unmarshalMessage outside."),
+ "C27": ("§5 C27", "protodelim framing logic whole: UnmarshalFrom on every stream <=5 (6) bytes with 3 reader behaviours (bulk, byte-at-a-time, data+EOF together), MaxSize symbolic 1..4 / default / unlimited: io.EOF exactly at a clean boundary, io.ErrUnexpectedEOF inside size or body, SizeTooLargeError (all uint64 sizes x all MaxSize), body handed to Unmarshal exactly, exact consumption; MarshalTo writes varint(len)++msg and is read back message after message. Messages themselves stubbed (recording model message); bufio fast path outside."),
+ "C29": ("§0a, §5 C29", "Open-struct vs opaque flavour of the same schema on the fast path (VReq/VReqO, VScalars2/VScalarsO): same verdict, initialized flag, identical deterministic bytes, Size, CheckInitialized and validator results on every input <=3..4 (5..6) bytes and on one-field structured inputs. Hybrid API, builders/setters, dynamicpb, JSON/text outside."),
+ "C39": ("§5 C39", "defval Marshal/Unmarshal round trip: bytes defaults of every content <=3 (4) bytes in both formats (real text.UnmarshalString underneath, exact Sprintf octal model), bool and string defaults. Integer kinds (strconv.FormatInt/ParseInt digit loops: solver unknown within budget, tried and dropped), floats and enums by name are outside."),
  "C21": ("§5 C21", "internal/encoding/json token level: parseNumber vs the RFC 8259 number grammar on every byte string <=6 (8 thorough) in both directions (accepted => grammatical and delimiter-terminated; grammatical+delimiter => accepted whole), parseString vs an RFC 8259 string reference incl. decoded value on quote+<=5 (7) bytes and on \\uXXXX escapes / surrogate pairs with symbolic hex digits, null/true/false matching, and Decoder.Read to EOF on every document <=4 (5) bytes: accepted => the reference JSON grammar accepts. Message-level protojson output is outside."),
  "C23": ("§5 C23", "protojson.parseDuration vs a three-valued reference recogniser of the documented Duration grammar with exact (seconds,nanos) incl. sign rule on every string <=6 (8 thorough) bytes, plus structured long literals (sign, <=13 integer digits, <=10 fractional digits, all digits symbolic; cvc5 integer back end). FieldMask JSON reversibility kernel (JSONCamelCase/JSONSnakeCase) via C42's harness. Timestamp text (time.Parse), Struct/Value/Any and the range check in unmarshalDuration are outside."),
  "C25": ("§5 C25", "text.appendString -> UnmarshalString round trip for every byte string <=3 (4 thorough) bytes in both outputASCII modes (byte-exact, ASCII mode emits only 0x20..0x7e), and parseString totality on quote+<=4 (5) arbitrary bytes with either quote. Strings longer than the bound are outside."),
